@@ -380,6 +380,29 @@ def check_cross_process(ck, names):
                 f"sha256 of the traced iteration() program and constants under PYTHONHASHSEED=1: {digests[0][aname][:16]}…, under PYTHONHASHSEED=2: {str(digests[1].get(aname))[:16]}…")
 
 
+def check_device_count(ck, names):
+    """hyper-parameters, environment, policy and key are the only inputs: the traced reset() / iteration() programs (2 and 4 parallel environments) are the
+    same whether JAX sees one host device or two (XLA_FLAGS=--xla_force_host_platform_device_count)"""
+    import json
+    import os
+    import subprocess
+    import sys
+    res = []
+    for n in (1, 2):
+        env = dict(os.environ)
+        env["XLA_FLAGS"] = (env.get("XLA_FLAGS", "") + f" --xla_force_host_platform_device_count={n}").strip()
+        p = subprocess.run([sys.executable, "-W", "ignore", "-m", "props.c11_worker", "--multi-env"] + list(names), capture_output=True, text=True, env=env, cwd=core.ROOT, timeout=900)
+        line = [l for l in p.stdout.splitlines() if l.startswith("C11MULTI ")]
+        if not line:
+            raise RuntimeError("c11_worker --multi-env failed: " + (p.stderr or p.stdout)[-600:])
+        res.append(json.loads(line[0][len("C11MULTI "):]))
+    ck.fact("purity.device_count_varied", res[0].get("devices") == 1 and res[1].get("devices") == 2, f"local device counts of the two processes: {res[0].get('devices')}, {res[1].get('devices')}")
+    for k in res[0]:
+        if k == "devices":
+            continue
+        ck.fact(f"purity.same_program_with_two_host_devices.{k}", res[0][k] == res[1].get(k), f"sha256 of the traced reset()+iteration() programs with 1 device: {res[0][k][:16]}…, with 2 devices: {str(res[1].get(k))[:16]}…")
+
+
 def check_construction_order(ck, names):
     """'a function of (environment, initial policy, hyper-parameters, key)': an algorithm object's training program depends on ITS OWN constructor arguments only,
     not on which other algorithm objects the process built before.  Two fresh interpreter processes build, per algorithm, the default configuration and one
@@ -429,6 +452,8 @@ def main():
         check_construction_order(ck, [n for n in configs() if not only or n == only])
     with ck.section("cross_process"):
         check_cross_process(ck, [n for n in setups(ck.thorough) if not only or n == only])
+    with ck.section("device_count"):
+        check_device_count(ck, [n for n in configs() if not only or n == only])
     ck.finish("For each algorithm the real reset() and iteration() are traced once per callback set over an uninterpreted environment and the real (tiny) MLP "
               "policies with symbolic parameters; with the same symbolic inputs every output other than the callbacks' own state (policy, optimiser state, "
               "environment/policy state, buffers, counters, target networks) is shown equal to the run without observers (mostly identical terms; a solver "
